@@ -168,7 +168,26 @@ func TestC06_Reuse(t *testing.T) {
 		cfg := gen.ExprCfg{MaxDepth: 2, MaxSteps: 4, Funcs: true, Let: true, Arith: true, Compare: true}
 		g := &gen.G{T: t, Root: vals[0], Cfg: cfg}
 		var e ast.Expr
-		switch rapid.IntRange(0, 5).Draw(t, "exprkind") {
+		switch rapid.IntRange(0, 6).Draw(t, "exprkind") {
+		case 6:
+			// new arrays built from existing ones: concatenation by flattening a
+			// multi-select, zip, merge of objects holding them, slices of
+			// windows -- an append onto the first operand writes into memory
+			// the evaluator does not own when that operand has room behind it
+			src := []ast.Expr{ast.F("a"), ast.F("b"), ast.Cur(), ast.Lit(jv.VArr([]jv.Val{jv.VInt(1), jv.VInt(2), jv.VInt(3)})), ast.F("a").With(ast.Step{Kind: ast.SSlice, Stop: ast.I64(1)}),
+				ast.F("a").With(ast.Step{Kind: ast.SSlice, Start: ast.I64(0), Stop: ast.I64(2)}), ast.Call("to_array", ast.A(ast.F("a"))), ast.Lit(jv.VArr([]jv.Val{jv.VStr("x")}))}
+			x, y := gen.Pick(t, "cat1", src), gen.Pick(t, "cat2", src)
+			ml := &ast.Chain{Head: ast.Head{Kind: ast.HMultiList, Items: []ast.Expr{x, y}}}
+			switch rapid.IntRange(0, 4).Draw(t, "catform") {
+			case 0, 1:
+				e = ml.With(ast.Step{Kind: ast.SFlatten})
+			case 2:
+				e = (&ast.Chain{Head: ast.Head{Kind: ast.HMultiList, Items: []ast.Expr{x, y, ast.Lit(jv.VArr([]jv.Val{jv.VStr("third")}))}}}).With(ast.Step{Kind: ast.SFlatten})
+			case 3:
+				e = ast.Call("zip", ast.A(x), ast.A(y))
+			default:
+				e = ast.Bin("|", ml, &ast.Chain{Head: ast.Head{Kind: ast.HImplicit}, Steps: []ast.Step{{Kind: ast.SFlatten}}})
+			}
 		case 0: // aliasing-prone built-ins applied to document arrays and literals
 			arg := gen.Pick(t, "arg", []ast.Expr{ast.Cur(), ast.F("a"), ast.F("b"), ast.Lit(jv.VArr([]jv.Val{jv.VInt(3), jv.VInt(1), jv.VInt(2)})), ast.F("a").With(ast.Step{Kind: ast.SSlice, Start: ast.I64(0)}), ast.F("a").With(ast.Step{Kind: ast.SListStar})})
 			fn := gen.Pick(t, "fn", []string{"sort", "reverse", "to_array", "not_null", "max", "min", "values", "keys", "sum"})
